@@ -546,6 +546,20 @@ def observe(project, r):
                         x = bp.bindings[0] if slot == "binding" else bp.proto
                         return refsem.ford_ident(x) if not isinstance(x, str) else None
         return "<binding not found>"
+    if slot == "gbinding":
+        # the procedure a generic binding's specific binding stands for, as seen from one type
+        tname, gname, bname = r["at"].split("%")
+        for t in getattr(s, "types", []):
+            if t.name.lower() == tname.lower():
+                for bp in t.boundprocs:
+                    if bp.name.lower() == gname.lower() and bp.generic:
+                        for x in bp.bindings:
+                            if getattr(x, "name", x).lower() == bname.lower():
+                                if isinstance(x, str):
+                                    return None
+                                y = x.bindings[0] if getattr(x, "bindings", None) else None
+                                return refsem.ford_ident(y) if y is not None and not isinstance(y, str) else None
+        return "<generic binding not found>"
     if slot == "final":
         tname, fname = r["at"].split("%")
         for t in getattr(s, "types", []):
